@@ -36,6 +36,15 @@ static std::string g_scratch = ".";
 static vproxy *g_px = nullptr;
 static std::string g_only = "";
 
+// the LIBRARY refused a known-good configuration, failed a step on it, or lost/duplicated samples the script delivered: the oracle
+// of this check cannot be evaluated, and that is the library's doing (exit code 3 is reported as a violation, not a harness error)
+static void lerr(std::string const &msg)
+{
+  fprintf(stderr, "LIBRARY-FAILURE: %s\n", msg.c_str());
+  fflush(stderr);
+  _exit(3);
+}
+
 static void herr(std::string const &msg)
 {
   fprintf(stderr, "HARNESS-ERROR: %s\n", msg.c_str());
@@ -106,7 +115,7 @@ static void make_zoo()
     for (int n : {8, 16, 32, 64, 128})
       for (int p = 0; p < 2; p++) conf += cv_conf(conv_name(d, n, p), d, 0.0, CONV_L[d] / n, n, p);
   int rc = g_px->config(conf);
-  if (rc != 0) herr("zoo configuration failed: " + g_px->errtxt);
+  if (rc != 0) lerr("zoo configuration failed: " + g_px->errtxt);
 }
 
 // ------------------------------------------------------------------------------------------------
@@ -134,17 +143,17 @@ struct Sut {
 static void verify_sut(Sut &s)
 {
   RGrid &g = s.g;
-  if ((int) s.grad->nd != g.nd || (int) s.pmf->nd != g.nd) herr("grid dimension mismatch " + g.str());
-  if ((int) s.grad->mult != g.nd) herr("gradient multiplicity mismatch " + g.str());
+  if ((int) s.grad->nd != g.nd || (int) s.pmf->nd != g.nd) lerr("grid dimension mismatch " + g.str());
+  if ((int) s.grad->mult != g.nd) lerr("gradient multiplicity mismatch " + g.str());
   for (int d = 0; d < g.nd; d++) {
-    if (s.grad->nx[d] != g.nb[d]) herr("gradient grid size differs from the configured number of bins " + g.str());
-    if (s.pmf->nx[d] != g.np[d]) herr("potential grid size differs from bins(+1) " + g.str() + " got " + std::to_string(s.pmf->nx[d]));
-    if ((bool) s.grad->periodic[d] != g.per[d] || (bool) s.pmf->periodic[d] != g.per[d]) herr("periodic flag not as configured " + g.str());
-    if (std::fabs(s.pmf->widths[d] - g.w[d]) > 1e-14 || std::fabs(s.grad->widths[d] - g.w[d]) > 1e-14) herr("width mismatch " + g.str());
-    if (std::fabs(s.grad->lower_boundaries[d].real_value - g.lb[d]) > 1e-12) herr("lower boundary mismatch " + g.str());
+    if (s.grad->nx[d] != g.nb[d]) lerr("gradient grid size differs from the configured number of bins " + g.str());
+    if (s.pmf->nx[d] != g.np[d]) lerr("potential grid size differs from bins(+1) " + g.str() + " got " + std::to_string(s.pmf->nx[d]));
+    if ((bool) s.grad->periodic[d] != g.per[d] || (bool) s.pmf->periodic[d] != g.per[d]) lerr("periodic flag not as configured " + g.str());
+    if (std::fabs(s.pmf->widths[d] - g.w[d]) > 1e-14 || std::fabs(s.grad->widths[d] - g.w[d]) > 1e-14) lerr("width mismatch " + g.str());
+    if (std::fabs(s.grad->lower_boundaries[d].real_value - g.lb[d]) > 1e-12) lerr("lower boundary mismatch " + g.str());
   }
-  if ((long) s.pmf->nt != g.nnodes) herr("node count mismatch " + g.str());
-  if (g.nd > 1 && (long) s.pmf->divergence.size() != g.nnodes) herr("divergence size mismatch " + g.str());
+  if ((long) s.pmf->nt != g.nnodes) lerr("node count mismatch " + g.str());
+  if (g.nd > 1 && (long) s.pmf->divergence.size() != g.nnodes) lerr("divergence size mismatch " + g.str());
 }
 
 static void build_sut(Sut &s, RGrid const &g, std::vector<colvar *> const &cvs, bool has_counts, bool ctor_gradient_only)
@@ -160,7 +169,7 @@ static void build_sut(Sut &s, RGrid const &g, std::vector<colvar *> const &cvs, 
   s.grad->min_samples = 1;
   if (ctor_gradient_only) s.pmf.reset(new integrate_potential(s.grad));
   else s.pmf.reset(new integrate_potential(s.cvs, s.grad));
-  if (cvm::get_error()) herr("grid construction raised an error for " + g.str() + ": " + g_px->errtxt);
+  if (cvm::get_error()) lerr("grid construction raised an error for " + g.str() + ": " + g_px->errtxt);
   verify_sut(s);
 }
 
@@ -812,17 +821,25 @@ static void phase_conv(Result &r, int which, int nd, int flags)
 // ------------------------------------------------------------------------------------------------
 // ABF: the real bias
 // ------------------------------------------------------------------------------------------------
-struct AbfCfg { int nd; int nb[3]; bool per[3]; bool same_step; bool pabf; bool ti; };
+struct AbfCfg { int nd; int nb[3]; bool per[3]; bool same_step; bool pabf; bool ti;
+                bool gridblock;  // (1-D, non-periodic) the grid comes from a grid { } block of the bias; the variable's own boundaries span one bin
+};
+
+static std::string grid_block_txt(AbfCfg const &c)
+{
+  return c.gridblock ? " grid {\n lowerBoundary " + f17(0.0) + "\n upperBoundary " + f17(1.0 * c.nb[0]) + "\n width " + f17(1.0) + "\n }\n" : std::string();
+}
 
 static std::string abf_conf(AbfCfg const &c)
 {
   std::string s;
   const char *names[3] = {"a", "b", "c"};
-  for (int d = 0; d < c.nd; d++) s += cv_conf(names[d], d, d == 1 ? -1.0 : 0.0, d == 2 ? 0.5 : 1.0, c.nb[d], c.per[d]);
+  for (int d = 0; d < c.nd; d++) s += cv_conf(names[d], d, d == 1 ? -1.0 : 0.0, d == 2 ? 0.5 : 1.0, c.gridblock ? 1 : c.nb[d], c.per[d]);
   s += "abf {\n name abf1\n colvars";
   for (int d = 0; d < c.nd; d++) s += std::string(" ") + names[d];
   s += "\n fullSamples 2\n applyBias off\n";
   if (c.pabf) s += " pABFintegrateFreq 1\n";
+  s += grid_block_txt(c);
   s += "}\n";
   return s;
 }
@@ -860,17 +877,17 @@ static void run_abf_sequence(Result &r, AbfCfg const &c, std::vector<int> const 
   g.finish();
   long bins[3];
   three_bins(g, bins);
-  std::string fk = flagname(g) + (c.pabf ? ":pabf" : "") + (c.same_step ? "" : ":lagged");
+  std::string fk = flagname(g) + (c.pabf ? ":pabf" : "") + (c.same_step ? "" : ":lagged") + (c.gridblock ? ":grid-block" : "");
   std::string conf = abf_conf(c);
   vproxy *px = new vproxy(2, c.same_step);
   px->x[0] = cvm::rvector(0.5, -0.5, 0.25);
   px->x[1] = cvm::rvector(0, 0, 0);
   px->set_prefixes(prefix);
-  if (px->config(conf) != 0) herr("ABF configuration failed: " + px->errtxt + "\n" + conf);
+  if (px->config(conf) != 0) lerr("ABF configuration failed: " + px->errtxt + "\n" + conf);
   g_t[0] += now() - tt0; tt0 = now();
   colvarbias_abf *abf = dynamic_cast<colvarbias_abf *>(px->bias("abf1"));
-  if (!abf || !abf->samples || !abf->gradients) herr("ABF bias not created");
-  if (!abf->pmf) herr("ABF bias has no integrator although integrate defaults to on");
+  if (!abf || !abf->samples || !abf->gradients) lerr("ABF bias not created");
+  if (!abf->pmf) lerr("ABF bias has no integrator although integrate defaults to on");
   r.count("evaluations");
   std::string seqs;
   std::string base = "\"configuration\":\"" + jesc(conf) + "\",\"same_step_total_forces\":" + (c.same_step ? "true" : "false") + ",";
@@ -892,7 +909,7 @@ static void run_abf_sequence(Result &r, AbfCfg const &c, std::vector<int> const 
     px->fsys[0] = cvm::rvector(f[0], f[1], f[2]);
     seqs += (i ? "," : "") + std::string("{\"bin\":") + std::to_string(b) + ",\"position\":[" + num(pos[0]) + "," + num(pos[1]) + "," + num(pos[2]) + "],\"force\":[" + num(f[0]) + "," + num(f[1]) + "," + num(f[2]) + "]}";
     int rc = px->step((long) i);
-    if (rc != 0) herr("ABF step returned an error: " + px->errtxt);
+    if (rc != 0) lerr("ABF step returned an error: " + px->errtxt);
     r.count("transitions");
     if (i > 0) expected_samples++;
     // real gradient data -> reference divergence
@@ -908,7 +925,7 @@ static void run_abf_sequence(Result &r, AbfCfg const &c, std::vector<int> const 
       fprintf(stderr, "step %zu bin %ld: counts %s sums %s\n  divergence %s\n  pmf data   %s\n", i, b, vec_json(std::vector<double>(C.begin(), C.end())).c_str(), vec_json(S).c_str(),
               vec_json(abf->pmf->divergence).c_str(), vec_json(abf->pmf->data).c_str());
     }
-    if (nsamp != expected_samples) herr("ABF accumulated " + std::to_string(nsamp) + " samples, the script delivered " + std::to_string(expected_samples) + " (" + fk + ")");
+    if (nsamp != expected_samples) lerr("ABF accumulated " + std::to_string(nsamp) + " samples, the script delivered " + std::to_string(expected_samples) + " (" + fk + ")");
     std::string st = "F:" + fk + g.str() + vec_json(S) + vec_json(std::vector<double>(C.begin(), C.end()));
     r.seen("states", st);
     if (g.nd >= 2 && !bad) {
@@ -966,7 +983,7 @@ static void run_abf_sequence(Result &r, AbfCfg const &c, std::vector<int> const 
   g_t[2] += now() - tt0; tt0 = now();
   int rc = px->end_run();
   g_t[3] += now() - tt0; tt0 = now();
-  if (rc != 0) herr("post_run returned an error: " + px->errtxt);
+  if (rc != 0) lerr("post_run returned an error: " + px->errtxt);
   r.count("transitions");
   std::vector<std::vector<double>> rows;
   std::string path = prefix + ".pmf";
@@ -1023,16 +1040,16 @@ static void run_ti_sequence(Result &r, AbfCfg const &c, std::vector<int> const &
   RGrid g;
   g.nd = 1; g.nb[0] = c.nb[0]; g.per[0] = c.per[0]; g.w[0] = 1.0; g.lb[0] = 0.0;
   g.finish();
-  std::string fk = std::string("1d:") + (c.per[0] ? "p" : "n") + (c.same_step ? "" : ":lagged");
-  std::string conf = cv_conf("a", 0, 0.0, 1.0, c.nb[0], c.per[0]) +
-                     "harmonic {\n name h1\n colvars a\n centers 0.5\n forceConstant 0.001\n writeTIPMF on\n}\n";
+  std::string fk = std::string("1d:") + (c.per[0] ? "p" : "n") + (c.same_step ? "" : ":lagged") + (c.gridblock ? ":grid-block" : "");
+  std::string conf = cv_conf("a", 0, 0.0, 1.0, c.gridblock ? 1 : c.nb[0], c.per[0]) +
+                     "harmonic {\n name h1\n colvars a\n centers 0.5\n forceConstant 0.001\n writeTIPMF on\n" + grid_block_txt(c) + "}\n";
   vproxy *px = new vproxy(2, c.same_step);
   px->x[0] = cvm::rvector(0.5, 0, 0);
   px->x[1] = cvm::rvector(0, 0, 0);
   px->set_prefixes(prefix);
-  if (px->config(conf) != 0) herr("TI configuration failed: " + px->errtxt + "\n" + conf);
+  if (px->config(conf) != 0) lerr("TI configuration failed: " + px->errtxt + "\n" + conf);
   colvarbias_ti *ti = dynamic_cast<colvarbias_ti *>(px->bias("h1"));
-  if (!ti || !ti->ti_avg_forces || !ti->ti_count) herr("harmonic bias with writeTIPMF has no TI grids");
+  if (!ti || !ti->ti_avg_forces || !ti->ti_count) lerr("harmonic bias with writeTIPMF has no TI grids");
   r.count("evaluations");
   std::string seqs;
   // step 0 is a lead-in (no step-zero data); arrivals are steps 1..len
@@ -1045,7 +1062,7 @@ static void run_ti_sequence(Result &r, AbfCfg const &c, std::vector<int> const &
     px->x[0] = cvm::rvector(g.bin_center((int) b, 0), 0, 0);
     px->fsys[0] = cvm::rvector(f, 0, 0);
     seqs += (i ? "," : "") + std::string("{\"bin\":") + std::to_string(b) + ",\"force\":" + num(f) + "}";
-    if (px->step((long) i) != 0) herr("TI step returned an error: " + px->errtxt);
+    if (px->step((long) i) != 0) lerr("TI step returned an error: " + px->errtxt);
     r.count("transitions");
   }
   std::vector<double> gv(g.nbins); std::vector<double> Cd(g.nbins), Sd(g.nbins);
@@ -1058,10 +1075,10 @@ static void run_ti_sequence(Result &r, AbfCfg const &c, std::vector<int> const &
     gv[k] = cnt > 0 ? -sum / (double) cnt : 0.0;   // free-energy gradient = minus the mean force
     if (cnt == 0) unsampled = true;
   }
-  if (nsamp != (long) seq.size()) herr("TI accumulated " + std::to_string(nsamp) + " samples, the script delivered " + std::to_string(seq.size()));
+  if (nsamp != (long) seq.size()) lerr("TI accumulated " + std::to_string(nsamp) + " samples, the script delivered " + std::to_string(seq.size()));
   std::string key = "T:" + fk + g.str() + vec_json(Sd) + vec_json(Cd);
   r.seen("states", key); r.seen("nontrivial", key);
-  if (px->end_run() != 0) herr("post_run returned an error: " + px->errtxt);
+  if (px->end_run() != 0) lerr("post_run returned an error: " + px->errtxt);
   r.count("transitions");
   std::ifstream f((prefix + ".h1.ti.pmf").c_str());
   std::stringstream buf; buf << f.rdbuf();
@@ -1162,13 +1179,14 @@ static std::vector<Item> make_items()
   // ABF
   if (want("ABF")) {
     std::vector<AbfCfg> cfgs;
-    auto add = [&](int nd, int n0, int n1, int n2, int flags, bool same, bool pabf, bool ti = false) {
-      AbfCfg c{}; c.ti = ti; c.nd = nd; c.nb[0] = n0; c.nb[1] = n1; c.nb[2] = n2;
+    auto add = [&](int nd, int n0, int n1, int n2, int flags, bool same, bool pabf, bool ti = false, bool gb = false) {
+      AbfCfg c{}; c.ti = ti; c.gridblock = gb; c.nd = nd; c.nb[0] = n0; c.nb[1] = n1; c.nb[2] = n2;
       for (int d = 0; d < 3; d++) c.per[d] = d < nd ? (flags >> d) & 1 : false;
       c.same_step = same; c.pabf = pabf;
       cfgs.push_back(c);
     };
     for (int flags = 0; flags < 2; flags++) { add(1, 3, 1, 1, flags, true, false); add(1, 3, 1, 1, flags, false, false); add(1, 3, 1, 1, flags, true, false, true); add(1, 3, 1, 1, flags, false, false, true); }
+    add(1, 3, 1, 1, 0, true, false, false, true); add(1, 3, 1, 1, 0, true, false, true, true); add(1, 3, 1, 1, 0, false, false, true, true);
     for (int flags = 0; flags < 4; flags++) {
       add(2, 2, 3, 1, flags, true, false);
       add(2, 3, 2, 1, flags, true, true);
@@ -1258,15 +1276,17 @@ static void write_result_c16(std::string const &path, std::string const &tier, R
 {
   FILE *f = fopen(path.c_str(), "w");
   if (!f) { perror(path.c_str()); exit(2); }
+  if (r.counters.count("workers_lost")) exhaustive = false;  // the cases of a lost worker were not all run
+  auto pfx = [](std::string const &sg) { return sg.rfind("library-", 0) == 0 ? "C16:" + sg : sg; };
   fprintf(f, "{\n \"property_id\": \"C16\",\n \"tier\": \"%s\",\n \"exhaustive\": %s,\n \"counters\": {", tier.c_str(), exhaustive ? "true" : "false");
   bool first = true;
   for (auto &kv : r.counters) { fprintf(f, "%s\"%s\": %ld", first ? "" : ", ", jesc(kv.first).c_str(), kv.second); first = false; }
   fprintf(f, "},\n \"distinct\": {\"states\": %ld, \"nontrivial\": %ld},\n \"violation_counts\": {", nstates, nnontrivial);
   first = true;
-  for (auto &kv : r.viol_count) { fprintf(f, "%s\"%s\": %ld", first ? "" : ", ", jesc(kv.first).c_str(), kv.second); first = false; }
+  for (auto &kv : r.viol_count) { fprintf(f, "%s\"%s\": %ld", first ? "" : ", ", jesc(pfx(kv.first)).c_str(), kv.second); first = false; }
   fprintf(f, "},\n \"violations\": [");
   first = true;
-  for (auto &v : r.violations) { fprintf(f, "%s\n  {\"sig\": \"%s\", \"detail\": %s}", first ? "" : ",", jesc(v.sig).c_str(), v.detail.size() ? v.detail.c_str() : "{}"); first = false; }
+  for (auto &v : r.violations) { fprintf(f, "%s\n  {\"sig\": \"%s\", \"detail\": %s}", first ? "" : ",", jesc(pfx(v.sig)).c_str(), v.detail.size() ? v.detail.c_str() : "{}"); first = false; }
   fprintf(f, "],\n \"samples\": [");
   first = true;
   for (auto &x : r.samples) { fprintf(f, "%s\n  %s", first ? "" : ",", x.c_str()); first = false; }
